@@ -171,7 +171,7 @@ func trustedResourceURLFormat(format string, args map[string]string) (TrustedRes
 		})
 		if countDoubleDotSegments(ret) != countDoubleDotSegments(masked) {
 			err = fmt.Errorf(`arguments must not form a ".." path segment in %q`, ret)
-		} else if len(ret) > 1 && ret[0] == '/' && (ret[1] == '/' || ret[1] == '\\') && !strings.HasPrefix(format, "//") {
+		} else if r := urlIgnoredCharacters.Replace(ret); len(r) > 1 && r[0] == '/' && (r[1] == '/' || r[1] == '\\') && !strings.HasPrefix(format, "//") {
 			// e.g. `/%{dir}/static/app.js` with an empty argument: the path-absolute format
 			// would become the scheme-relative URL `//static/app.js`, which names a host.
 			err = fmt.Errorf("empty arguments must not turn the path %q into the scheme-relative URL %q", format, ret)
@@ -183,17 +183,25 @@ func trustedResourceURLFormat(format string, args map[string]string) (TrustedRes
 // countDoubleDotSegments returns the number of ".." dot-segments, in percent-encoded
 // or unencoded form, in the path of url.
 func countDoubleDotSegments(url string) int {
+	// URL parsers remove tabs and newlines anywhere, and C0 control characters and spaces at
+	// both ends, before they look at the URL; in http(s) URLs a "\" separates segments too.
+	url = strings.Trim(urlIgnoredCharacters.Replace(url), "\x00\x01\x02\x03\x04\x05\x06\x07\x08\x0b\x0c\x0e\x0f\x10\x11\x12\x13\x14\x15\x16\x17\x18\x19\x1a\x1b\x1c\x1d\x1e\x1f ")
 	if i := strings.IndexAny(url, "?#"); i != -1 {
 		url = url[:i]
 	}
 	n := 0
-	for _, segment := range strings.Split(url, "/") {
-		if strings.Replace(strings.ToLower(segment), "%2e", ".", -1) == ".." {
+	for _, segment := range strings.FieldsFunc(url+"/", func(r rune) bool { return r == '/' || r == '\\' }) {
+		// A "." segment counts as well: `%{a}/..` climbs one level higher with "." than with
+		// any other value.
+		switch strings.Replace(strings.ToLower(segment), "%2e", ".", -1) {
+		case "..", ".":
 			n++
 		}
 	}
 	return n
 }
+
+var urlIgnoredCharacters = strings.NewReplacer("\t", "", "\n", "", "\r", "")
 
 // trustedResourceURLFormatMarkerPattern matches markers in TrustedResourceURLFormat
 // format strings.
